@@ -57,6 +57,8 @@ pub fn serialize_salted(events: &[Value], variant: usize, salt: usize) -> Doc {
             3 => if p == "c" { ["&co;", "x]]y", "]]"][n % 3].to_string() } else { ["&co;", "&nbsp;", "AT&T"][n % 3].to_string() },
             // 4: empty attribute values (character data keeps its token: text versus no text is structure)
             4 => if p == "v" { String::new() } else { format!("{}{:03}", p, n) },
+            // 5: the tokens of salt 0, but every CDATA section is empty (still a CDATA node)
+            5 => if p == "c" { String::new() } else { format!("{}{:03}", p, n) },
             _ => "  ".to_string(),
         };
         tokens.push(t.clone());
